@@ -291,6 +291,17 @@ func genRot(w *bufio.Writer, r *rand.Rand, n int) {
 		}
 		buf = append(buf[:0], 4, k, j)
 		buf = append(buf, c[1:]...)
+		if r.Intn(12) == 0 {
+			// offsets just below 2^64: j*M is the largest multiple of M that keeps off+k+j*M below 2^64
+			ju := (^uint64(0) - uint64(m)) / uint64(m)
+			w.WriteString("4 " + strconv.FormatInt(k, 10) + " " + strconv.FormatUint(ju, 10))
+			for _, v := range c[1:] {
+				w.WriteByte(' ')
+				w.WriteString(strconv.FormatInt(v, 10))
+			}
+			w.WriteByte('\n')
+			continue
+		}
 		wr(w, buf)
 	}
 }
